@@ -280,8 +280,10 @@ def finish(ctx, level="proof", extra_cov=None, assumptions=None, technique_note=
     if extra_cov: cov.update(extra_cov)
     ev = dict(property_id=ctx.pid, tier=ctx.tier, seed=ctx.seed, level=level, coverage=cov,
               assumptions=assumptions or [], wall_s=round(wall, 2), violations=len(viol))
-    os.makedirs(os.path.join(VERIF, "evidence"), exist_ok=True)
-    json.dump(ev, open(os.path.join(VERIF, "evidence", ctx.pid + ".json"), "w"), indent=1, default=str)
+    # runs against a private patched copy of the sources (RAPTOR_REPO, seeded-change trials) do not touch evidence/
+    evdir = os.path.join(VERIF, "evidence") if buildlib.REPO == "/repo" else os.path.join(buildlib.CACHE, "evidence-trial")
+    os.makedirs(evdir, exist_ok=True)
+    json.dump(ev, open(os.path.join(evdir, ctx.pid + ".json"), "w"), indent=1, default=str)
     print("%s %s: theorems %d/%d, cases %d (nontrivial %d), compared %d, signals %s, %.1fs -> %s" % (
         ctx.pid, ctx.tier, len(thm["ok"]), len(thm["theorems"]), ctx.evaluations, len(ctx.nontrivial),
         ctx.compared, cov["signals"], wall, "FAIL" if rc else "ok"))
